@@ -41,37 +41,25 @@ def terminator_rule(F, G, rep):
     # (a) the only Ok(..) result is the tail expression
     oks = [n for n in tir.walk(val) if n.get("k") == "Call" and (declared(n) or "").endswith("::Ok") and "game::immutable::Game" in (n.get("ty") or "")]
     rep.ob("D.single-ok", len(oks) == 1 and oks[0] is tail, SLP_READ, "Ok", "read() must have a single Ok exit, the tail expression (found %d Ok(Game) constructions)" % len(oks))
-    # (b) terminator match at the top level, before the tail
-    term_i = None
-    for i, s in enumerate(stmts):
-        e = L.strip_try(s)
-        if e.get("k") == "Match" and e["scrut"].get("k") == "Try":
-            c = strip(e["scrut"]["e"])
-            if c.get("k") == "MethodCall" and c["method"] == "read_u8":
-                arms = {}
-                default = None
-                for a in e["arms"]:
-                    p = a["pat"]
-                    if p.get("k") == "Lit" and p["e"].get("lit") == "int":
-                        arms[p["e"]["v"]] = a["body"]
-                    else:
-                        default = a["body"]
-                if set(arms) == {0x55, 0x7d}:
-                    term_i = i
-                    body55 = L.strip_try(arms[0x55])
-                    seq = [L.strip_try(x) for x in body55.get("stmts", [])] + ([L.strip_try(body55["tail"])] if body55.get("tail") else [])
-                    tries = []
-                    for x in body55.get("stmts", []) + ([body55["tail"]] if body55.get("tail") else []):
-                        x0 = x.get("e") if x.get("k") == "Expr" else x
-                        if x0.get("k") == "Try":
-                            tries.append(callee(strip(x0["e"])) or "")
-                    eb = [x for x in tir.walk(arms[0x55]) if x.get("k") == "Call" and (declared(x) or "") == "io::expect_bytes"]
-                    ok55 = tries[:2] == ["io::slippi::de::parse_metadata", "io::expect_bytes"] and len(eb) == 1 and F.bytes_of(eb[0]["args"][1]) == [0x7d]
-                    rep.ob("D.metadata-arm", ok55, SLP_READ, "0x55", "the metadata arm must run parse_metadata(..)? and then expect_bytes(.., [0x7d])? unconditionally; found %s" % tries)
-                    d = L.strip_try(default) if default else {}
-                    dret = d.get("k") == "Ret" and (declared(strip(d.get("e") or {})) or "").endswith("::Err")
-                    rep.ob("D.other-bytes", dret, SLP_READ, "default", "any byte other than 0x55 / 0x7d after the raw element must be an error")
-    rep.ob("D.terminator", term_i is not None, SLP_READ, "terminator", "read() must read one byte after the raw element and accept only 'U' (metadata) or '}'")
+    # (b) the tail after the raw element, as stream-token paths: 'U' + metadata + '}' | '}' | anything else is an error
+    import slpterm
+    term_line = None
+    try:
+        ok_t, detail = slpterm.check(F)
+        ps = slpterm.terminator_paths(F) or []
+        rep.ob("D.terminator", bool(ps), SLP_READ, "terminator", "read() must read one byte after the raw element and accept only 'U' (metadata) or '}'")
+        if ps:
+            have = set(ps)
+            rep.ob("D.metadata-arm", any(p == slpterm.EXPECTED_META for p in have), SLP_READ, "0x55",
+                   "after 'U' the reader must run parse_metadata(..)? and then expect_bytes(.., [0x7d])? unconditionally; " + detail)
+            rep.ob("D.other-bytes", ((("u8", ("!=", (0x55, 0x7d))),), "err") in have and ok_t, SLP_READ, "default", "any byte other than 0x55 / 0x7d after the raw element must be an error; " + detail)
+    except L.Unsupported as e:
+        rep.cannot("D.terminator", SLP_READ, e)
+    for n in tir.walk(val):
+        if n.get("k") == "MethodCall" and n["method"] == "read_u8" and "HashingReader" in ((strip(n["recv"]).get("ty") or "")) and not any(
+                y.get("k") in ("Loop", "For") and any(z is n for z in tir.walk(y)) for y in tir.walk(val)):
+            term_line = n["sp"][1]
+    term_i = term_line
     # MIR: every path to the Ok return passes the terminator's read_u8
     mir = [m for p, m, _ in G.bodies[SLP_READ] if p == SLP_READ][0]
     okb = []
@@ -81,7 +69,7 @@ def terminator_rule(F, G, rep):
                 okb.append(i)
     rep.floor("Ok-return blocks in read()", len(okb), 1)
     if term_i is not None:
-        line = L.strip_try(stmts[term_i])["scrut"]["sp"][1]
+        line = term_line
         through = [i for i, t in flow.find_calls(mir, lambda c, t: c.startswith("byteorder::ReadBytesExt::read_u8")) if t["sp"][1] == line or (t.get("esp") or [0, 0])[1] == line]
         escaped = flow.must_pass(mir, through, okb) if through else okb
         rep.ob("D.must-pass", bool(through) and not escaped, SLP_READ, "must-pass", "a path reaches the Ok return without reading the terminator byte",
